@@ -975,7 +975,7 @@ ALLD = ['u64', 'u32', 'u16', 'u8']
 NOTE = '// GENERATED by overlay/scripts/gen_numtraits_conv.py (numtraits_conv.vrs: ToPrimitive for $BUint + shared lemmas; numtraits_conv2.vrs: ToPrimitive for $BInt; numtraits_conv3.vrs: FromPrimitive) -- re-run the script instead of editing.\n'
 # ---- unit numtraits_conv: shared lemmas + ToPrimitive for $BUint
 CUR[0] = 1
-w('//! raw bn_numtraits_conv_note\n' + NOTE)
+w('//! scope numtraits.*\n//! raw bn_numtraits_conv_note\n' + NOTE)
 for T, TB in UT:
     w(inst(LEMMAS_U, T, TB).lstrip('\n'))
 for T, U, TB in ST:
@@ -988,7 +988,7 @@ for T, U, TB in ST:
         emit_to(w, inst(BU_TO_S, T, TB).replace('@U@', U).lstrip('\n'), TB)
 # ---- unit numtraits_conv2: ToPrimitive for $BInt
 CUR[0] = 2
-w('//! raw bn_numtraits_conv2_note\n' + NOTE)
+w('//! scope numtraits.*\n//! raw bn_numtraits_conv2_note\n' + NOTE)
 for T, U, TB in ST:
     ds = [d for d in ALLD if d != DIGIT_SD.get(T)]
     if T != 'i8':   # i8::is_negative is already specified by unit slices (same contract)
@@ -1006,7 +1006,7 @@ for T, U, TB in ST:
         emit_to(w, inst(BI_TO_S, T, TB).replace('@U@', U).replace('@NARROW2CALL@', call).lstrip('\n'), TB)
 # ---- unit numtraits_conv3: FromPrimitive
 CUR[0] = 3
-w('//! raw bn_numtraits_conv3_note\n' + NOTE)
+w('//! scope numtraits.*\n//! raw bn_numtraits_conv3_note\n' + NOTE)
 w(MOD_LE)
 w(ZERO_DIGITS)
 for T, TB in UT:
